@@ -951,6 +951,20 @@ fn check_field(
             ctx.report.violation("oracle", k("C07:term-order"), format!("field {}: term stream not strictly increasing: {} then {}", spec.name, hex(&w[0].0), hex(&w[1].0)), cj(&w[1].0));
         }
     }
+    // the FieldSerializer layout (model `FieldSerializer.writeTerms`): ranges start at 0 and are back to back
+    {
+        let mut p = 0usize;
+        let mut q = 0usize;
+        for (t, ti) in &terms {
+            if ti.postings_range.start != p || ti.positions_range.start != q || ti.postings_range.end < p || ti.positions_range.end < q {
+                ctx.report.violation("model", "C07:model-terminfo-layout", format!("field {}: TermInfo of {} is postings {:?} positions {:?}, the layout model expects them to start at {p} / {q}", spec.name, short(&hex(t)), ti.postings_range, ti.positions_range), cj(t));
+                break;
+            }
+            p = ti.postings_range.end;
+            q = ti.positions_range.end;
+        }
+        ctx.report.count("terminfo-layout-checked");
+    }
     let got_set: BTreeSet<&Vec<u8>> = terms.iter().map(|t| &t.0).collect();
     let want_set: BTreeSet<&Vec<u8>> = exp.map.keys().collect();
     if got_set != want_set {
@@ -1303,6 +1317,9 @@ pub fn run(ctx: &mut Ctx) {
         "model `seek` = real SegmentPostings driven by the same program on the real bytes".into(),
         "model `pos_enc` bytes = PositionSerializer bytes; model `pos_read` = PositionReader::read".into(),
         "model `blocksearch` = postings::search_block = number of elements < target".into(),
+        "TermInfos of every field: ranges start at 0 and are back to back (model FieldSerializer.writeTerms)".into(),
+        "JSON fields: read-back = model `invert_json` on the leaf events (per-path position bookkeeping)".into(),
+        "stateful PositionReader on read sequences = model `pos_reads`".into(),
     ];
     ctx.report.correspondence_obligations.extend(crate::c07_more::obligations());
     let av = probe(ctx);
